@@ -3,6 +3,7 @@ package harness
 import (
 	"bytes"
 	"fmt"
+	"os"
 	"sort"
 	"strings"
 	"testing"
@@ -52,7 +53,7 @@ type concResult struct {
 }
 
 func (cr *concResult) retain(b []byte, what string) {
-	if len(b) == 0 || len(cr.retained) >= 200 {
+	if cap(b) == 0 || len(cr.retained) >= 200 {
 		return
 	}
 	cr.retained = append(cr.retained, retained{live: b, snap: append([]byte(nil), b...), what: what})
@@ -64,7 +65,7 @@ func (cr *concResult) checkRetained(when string) *Violation {
 		if !bytes.Equal(r.live, r.snap) {
 			return violf("returned-slice-changed", "slice returned by %s changed %s: was %s now %s", r.what, when, showVal(r.snap), showVal(r.live))
 		}
-		if cr.env.FS.Overlaps(r.live) {
+		if cr.env.FS.Overlaps(r.live[:cap(r.live)]) {
 			return violf("returned-slice-aliases-file", "slice returned by %s points into a file buffer (%s)", r.what, when)
 		}
 	}
@@ -217,7 +218,7 @@ func concExec(t *testing.T, p *Plan, co concOpts) *concResult {
 	body := func() {
 		sim = sched.New(sched.Config{
 			Seed: p.Cfg.SchedSeed, Tape: p.Tape, Sticky: p.Cfg.Sticky, TickProb: p.Cfg.TickProb,
-			FSYields: p.Cfg.FSYields, MaxSteps: 400000,
+			FSYields: p.Cfg.FSYields, MaxSteps: 400000, LogEvents: os.Getenv("VERIF_EVLOG") != "",
 		}, synctest.Wait)
 		cr.sim = sim
 		mainTask = sim.Go("main", func() {
@@ -255,6 +256,9 @@ func concExec(t *testing.T, p *Plan, co concOpts) *concResult {
 		sim.Run()
 	}
 	cr.leak = runBubble(t, body)
+	if f := os.Getenv("VERIF_EVLOG"); f != "" && sim != nil {
+		os.WriteFile(f, []byte(strings.Join(sim.EventLog(), "\n")+"\n"), 0644)
+	}
 	_ = mainTask
 	if sim == nil {
 		panic("conc: the bubble did not start: " + cr.leak)
